@@ -88,12 +88,13 @@ type Exec struct {
 	smtMu      sync.Mutex
 	goalValid  map[*Term]bool
 	heapClasses map[string]*heapClass
+	forceInline map[string]bool
 }
 
 func NewExec(prog *Prog, ts *TermStore) *Exec {
 	return &Exec{prog: prog, ts: ts, base: map[*Loc]Value{}, globals: map[*types.Var]*Loc{}, initStore: map[*Loc]Value{},
 		escaped: map[*Loc]bool{}, initDone: map[string]bool{}, initBusy: map[string]bool{}, oblCount: map[string]int{}, loopBound: 8,
-		usedContracts: map[string]bool{}, assumptions: map[string]bool{}, revealed: map[string]bool{}, boundSeen: map[string]bool{}, goalValid: map[*Term]bool{}, heapClasses: map[string]*heapClass{}}
+		usedContracts: map[string]bool{}, assumptions: map[string]bool{}, revealed: map[string]bool{}, boundSeen: map[string]bool{}, goalValid: map[*Term]bool{}, heapClasses: map[string]*heapClass{}, forceInline: map[string]bool{}}
 }
 
 // Clone makes an independent executor sharing the (immutable) base store.
@@ -284,7 +285,14 @@ func (ex *Exec) mergeStates(a, b *State) (res *State) {
 	c := ex.selector(a, b)
 	n := &State{pc: ex.ts.OrPC(a.pc, b.pc), store: make(map[*Loc]Value, len(a.store))}
 	for k, va := range a.store {
-		if vb, ok := b.store[k]; ok {
+		vb, ok := b.store[k]
+		if !ok {
+			// not written on path b: a global / heap location keeps its base value there
+			if base, inBase := ex.base[k]; inBase {
+				vb, ok = base, true
+			}
+		}
+		if ok {
 			if va == vb {
 				n.store[k] = va
 			} else {
@@ -296,7 +304,11 @@ func (ex *Exec) mergeStates(a, b *State) (res *State) {
 	}
 	for k, vb := range b.store {
 		if _, ok := a.store[k]; !ok {
-			n.store[k] = vb
+			if base, inBase := ex.base[k]; inBase && base != vb {
+				n.store[k] = ex.iteValue(c, base, vb)
+			} else {
+				n.store[k] = vb
+			}
 		}
 	}
 	for _, pl := range ex.pendingLocs {
